@@ -6,6 +6,8 @@ CONSTANTS
   ExtraPayloads = {}
   Sizes = {}
   Runes = {}
+  RErrs = {}
+  WErrs = {}
   MaxLen = 0
 INVARIANTS TypeOK PrevOK CleanNoUnread
 CONSTRAINT Mark
